@@ -103,7 +103,8 @@ def gen_ens_case(rng, malformed_ok=True):
             thr = list(reversed(thr))
             malformed = "thresholds-order"
     return {"fcst": fcst, "obs": obs, "thr": thr, "scalar_thr": nthr == 1 and rng.random() < 0.5, "op": op, "fair": fair,
-            "weights": weights, "member_first": rng.random() < 0.3, "malformed": malformed}
+            "weights": weights, "member_first": rng.random() < 0.3, "malformed": malformed,
+            "thr_dim": rng.choice([None, None, "thr", "event level"])}
 
 
 def run_ens(case, op=None):
@@ -126,13 +127,17 @@ def run_ens(case, op=None):
         kw["weights"] = xr.DataArray(np.array(case["weights"], dtype=float), dims=[fresh("case")])
     if not (op == "ge" and case.get("default_op")):
         kw["event_threshold_operator"] = getattr(operator, op)
+    tdim = "threshold"
+    if case.get("thr_dim"):          # the caller names the threshold dimension of the output
+        tdim = case["thr_dim"]
+        kw["threshold_dim"] = fresh(tdim)
     try:
         with np.errstate(all="ignore"):
             a = brier_score_for_ensemble(fx, ox, fresh("member"), thr, preserve_dims=[fresh("case")], **kw)
             b = brier_score_for_ensemble(fx, ox, fresh("member"), thr, **kw)
-        if set(a.dims) != {"case", "threshold"} or tuple(b.dims) != ("threshold",):
+        if set(a.dims) != {"case", tdim} or tuple(b.dims) != (tdim,):
             return ("err", f"shape: dims {a.dims} / {b.dims}")
-        return ("ok", np.asarray(a.transpose("case", "threshold").values, dtype=float).tolist(),
+        return ("ok", np.asarray(a.transpose("case", tdim).values, dtype=float).tolist(),
                 np.asarray(b.values, dtype=float).tolist())
     except Exception as ex:  # noqa: BLE001
         return ("err", core.exc_class(ex))
@@ -158,7 +163,7 @@ def ens_matches(res, m):
 
 
 def ens_desc(case):
-    return {k: case[k] for k in ("fcst", "obs", "thr", "scalar_thr", "op", "fair", "weights", "member_first")}
+    return {k: case.get(k) for k in ("fcst", "obs", "thr", "scalar_thr", "op", "fair", "weights", "member_first", "thr_dim")}
 
 
 def ens_tags(case):
